@@ -311,7 +311,7 @@ func shardFile(name, what string) string {
 func Guard[S any](p *Prop[S], spec S, f func(S) Result) (res Result) {
 	wd := p.Watchdog
 	if wd == 0 {
-		wd = 60 * time.Second
+		wd = 120 * time.Second
 	}
 	if m := os.Getenv("VERIF_WATCHDOG_MULT"); m != "" {
 		if k, err := strconv.Atoi(m); err == nil && k > 0 {
@@ -343,12 +343,62 @@ func Guard[S any](p *Prop[S], spec S, f func(S) Result) (res Result) {
 		default:
 		}
 		s2 := allStacks()
-		writeCase(shardFile(p.Name, "hang"), p.ID, p.Name, spec, "hang",
-			fmt.Sprintf("no result after %s", wd), nil, s1+"\n======== 1s later ========\n"+s2)
+		kind := "hang"
+		if isDeadlock(s1) && isDeadlock(s2) {
+			kind = "deadlock"
+		}
+		writeCase(shardFile(p.Name, "hang"), p.ID, p.Name, spec, kind,
+			fmt.Sprintf("no result after %s (%s)", wd, kind), nil, s1+"\n======== 1s later ========\n"+s2)
 		fmt.Fprintf(os.Stderr, "WATCHDOG: case did not return within %s\n", wd)
 		os.Exit(97)
 	}
 	return res
+}
+
+// isDeadlock reports whether a goroutine dump shows a true deadlock of the case
+// under test: at least one goroutine inside wharf is parked on a channel, select
+// or lock, and no goroutine of the process (other than the one taking the dump)
+// is running, runnable, in a syscall, waiting for I/O or sleeping - so nothing
+// can ever wake the parked ones. A slow or spinning computation always shows a
+// running/runnable goroutine and is NOT a deadlock by this rule.
+func isDeadlock(dump string) bool {
+	parkedInWharf := false
+	for _, g := range strings.Split(dump, "\n\n") {
+		if !strings.HasPrefix(g, "goroutine ") {
+			continue
+		}
+		if strings.Contains(g, "h.allStacks") {
+			continue // the dumper itself
+		}
+		head := g
+		if i := strings.Index(g, "\n"); i >= 0 {
+			head = g[:i]
+		}
+		lb, rb := strings.Index(head, "["), strings.Index(head, "]")
+		if lb < 0 || rb < lb {
+			continue
+		}
+		state := head[lb+1 : rb]
+		if i := strings.Index(state, ","); i >= 0 {
+			state = state[:i]
+		}
+		switch state {
+		case "chan receive", "chan send", "select", "semacquire", "sync.Mutex.Lock", "sync.RWMutex.Lock", "sync.RWMutex.RLock",
+			"sync.Cond.Wait", "sync.WaitGroup.Wait", "chan receive (nil chan)", "chan send (nil chan)", "select (no cases)":
+			if strings.Contains(g, "github.com/itchio/wharf/") {
+				parkedInWharf = true
+			}
+		case "GC worker (idle)", "GC sweep wait", "GC scavenge wait", "finalizer wait", "force gc (idle)", "debug call":
+			// runtime background
+		default:
+			// running, runnable, syscall, IO wait, sleep, ...: something can still happen
+			if strings.Contains(g, "os/signal.") || strings.Contains(g, "runtime.ensureSigM") {
+				continue
+			}
+			return false
+		}
+	}
+	return parkedInWharf
 }
 
 func allStacks() string {
